@@ -412,6 +412,32 @@ def rule_no_dev_open(ctx):
     c02.rule_dev_open(ctx, taint, rule="C08/no-dev-open")
 
 
+def rule_reader_base(ctx, R="C08/reader-base"):
+    """a module is read from target memory starting at the first byte of its (merged) mapping: ProcessReader::new(pid, mapping.start_address).
+    The file offset of the mapping plays no part — an image embedded at a non-zero offset of a container has its ELF header at the
+    mapping's start too (that is what is_interesting and the name rule assume)"""
+    b = ctx.body(R, "linux::ptrace_dumper::PtraceDumper::from_process_memory_for_mapping")
+    if b is None:
+        return
+    o = Origin(b)
+    calls = list(b.calls(lambda c: (c.short or "").endswith("ProcessReader::new")))
+    ctx.floor(R, "ProcessReader::new in from_process_memory_for_mapping", len(calls), 1)
+    for bi, t in calls:
+        a = o.call_args(bi)
+        base = core(a[1])
+        ok = base == ("field", ("param", 1), "start_address") and core(a[0]) == ("param", 2)
+        ctx.check(ok, R, "base=start_address", b.where(bi), "the reader is based at mapping.start_address of the target pid",
+                  "the module reader is based at %s (pid %s), not at mapping.start_address" % (show(base)[:100], show(core(a[0]))[:30]))
+    ib = ctx.body(R, "linux::ptrace_dumper::PtraceDumper::from_process_memory_for_index")
+    if ib is not None:
+        io = Origin(ib)
+        for bi, t in ib.calls(lambda c: (c.short or "").endswith("from_process_memory_for_mapping")):
+            a = io.call_args(bi)
+            m = strip(a[0])
+            ok = m[0] == "call" and m[1].split("::")[-1] == "index" and strip(m[2][0]) == ("field", ("param", 1), "mappings") and core(m[2][1]) == ("param", 2)
+            ctx.check(ok, R, "index->mapping", ib.where(bi), "from_process_memory_for_index(i) reads self.mappings[i]", "from_process_memory_for_index reads %s" % show(m)[:100])
+
+
 def run(ctx):
     from rules import preds
     preds.run(ctx, PROPERTY, ['is_executable', 'dynamic-segment', 'dynamic-section'])   # the opaque predicates these rules lean on, against oracle tables
@@ -421,6 +447,7 @@ def run(ctx):
     rule_module_order(ctx)
     rule_name_rule(ctx)
     rule_no_dev_open(ctx)
+    rule_reader_base(ctx)
     # a module whose build id cannot be read is dropped from the list: the scan over PT_NOTE segments must not give up early
     from rules import c14
     c14.rule_scan_all_notes(ctx, R="C08/scan-all-notes")
